@@ -49,6 +49,13 @@ static void inverse_pair(unsigned start, unsigned width, bool background) {
    unsigned k = 0;
    for (unsigned i = 0; i < 18; ++i) if (sel[i]) { vp_assert(k < d.size() && d[k] == ipr::Basic_specifier{ *w->SL[i] }, 10); ++k; }   // none lost, table order
    vp_assert(k == d.size(), 11);                                                                                                      // none invented, none repeated
+   // a second, different set right afterwards (the complement within the basis), then the first one again: no state is carried over
+   ipr::Specifiers all { }; for (unsigned i = 0; i < 18; ++i) all |= lx.specifiers(ipr::Basic_specifier{ *w->SL[i] });
+   auto d2 = lx.decompose(all ^ u); unsigned k2 = 0;
+   for (unsigned i = 0; i < 18; ++i) if (!sel[i]) { vp_assert(k2 < d2.size() && d2[k2] == ipr::Basic_specifier{ *w->SL[i] }, 14); ++k2; }
+   vp_assert(k2 == d2.size(), 15);
+   auto d3 = lx.decompose(u); vp_assert(d3.size() == d.size(), 16);
+   for (unsigned i = 0; i < d.size() && i < d3.size(); ++i) vp_assert(d3[i] == d[i], 17);
    vp_done();
 }
 extern "C" void h_inverse_windows(void) {
